@@ -47,6 +47,7 @@ func TestSim(t *testing.T) {
 		&simrt.Harness{Name: "event", Body: eventBody},
 		&simrt.Harness{Name: "set", Body: setBody},
 		&simrt.Harness{Name: "varutils", Body: varutilsBody},
+		&simrt.Harness{Name: "varinit", Body: varInitBody},
 		&simrt.Harness{Name: "setutils", Body: setutilsBody},
 		&simrt.Harness{Name: "derived", Body: derivedBody},
 		&simrt.Harness{Name: "derivedset", Body: derivedSetBody},
